@@ -761,6 +761,41 @@ func runC09(cfg *Cfg, rec *ev.Rec) {
 			item++
 		}
 	}
+	// structured multi-chunk batches (default mode): entries that only ZIP-215
+	// accepts - the same small-order key or R bytes - at the end of one 64-entry
+	// chunk and at the head of the next, everything else honest; every entry
+	// must get the verdict of single verification
+	for b := 0; b < cfg.n(24, 1200); b++ {
+		bt := &Batch{V: ref.Variant{Pure: true}, Zip: false, Hash: -1, EKind: "uniform", ESeed: rng.Int63(), FailAt: -1}
+		nn := 136
+		var so gen.Triple
+		if rng.Intn(2) == 0 {
+			so = gen.SmallKey(rng, s.so[rng.Intn(14)], gen.RandBelow(rng, ref.L), rng.Intn(8), 0)
+		} else {
+			so = gen.NoncanonR(rng, s.so[rng.Intn(14)], 0)
+		}
+		base := []int{63, 127, 60, 124}[rng.Intn(4)]
+		cnt := 2 + rng.Intn(7)
+		for i := 0; i < nn; i++ {
+			t := gen.Honest(rng, 0)
+			kind := "good-honest"
+			if i >= base && i < base+cnt {
+				// same key (or R) bytes, fresh valid-under-ZIP-215 signature each
+				if len(so.Tags) > 0 && so.Family == "smallkey" {
+					t = gen.SmallKey(rng, so.Pub, gen.RandBelow(rng, ref.L), rng.Intn(8), 0)
+				} else {
+					t = so.Clone()
+				}
+				kind = "zip-only(run)"
+			}
+			bt.Keys = append(bt.Keys, t.Pub)
+			bt.Msgs = append(bt.Msgs, t.Msg)
+			bt.Sigs = append(bt.Sigs, t.Sig)
+			bt.Kinds = append(bt.Kinds, kind)
+		}
+		rec.Class("structured-batch/small-order-across-chunk-boundary", 1)
+		judgeBatch(rec, bt)
+	}
 	n := cfg.n(600, 40000)
 	for i := 0; i < n; i++ {
 		switch i % 4 {
